@@ -534,8 +534,11 @@ def run_instance(inst, tier='quick', seed=0, replay_dir=None, prefix=None, first
         'vacuity': {'valid_samples': 0, 'defs_checked': 0, 'defs_bad': []}, 'solver_time': 0.0,
         'backends': {}, 'sample_obligation': None, 'error': None, 'tags': list(inst.tags),
     }
-    timeout = inst.timeout * (4.0 if tier == 'thorough' else 1.0)
-    budget_total = inst.budget if inst.budget else max(90.0, 6.0 * timeout)     # solver seconds per instance (shard)
+    # wall-clock solver limits are stretched when the machine is oversubscribed (set once per check run by the driver), so that a
+    # verdict does not flip to `undecided` because other jobs share the cores
+    scale = float(os.environ.get('VERIF_TIME_SCALE', '1') or 1)
+    timeout = inst.timeout * (4.0 if tier == 'thorough' else 1.0) * scale
+    budget_total = inst.budget * scale if inst.budget else max(90.0, 6.0 * timeout)     # solver seconds per instance (shard)
     patches = inst.patches() if inst.patches else []
     holder = {}
 
